@@ -4,6 +4,7 @@ Per operation: preconditions (obligations at every call), result shape, complex-
 fresh buffer / unknown = free Boolean), C-contiguity, ghost flags, may-write set.
 """
 import z3
+from vt.e1.values import is_tag
 from vt.e1.values import (SArr, SList, SNum, SNone, NONE, SMaxRank, SInf, Unsupported, fresh, zi, zb, as_conc, is_conc_int)
 
 
@@ -45,7 +46,7 @@ def need_rank(ex, state, arr, line):
 
 def getitem(ex, state, arr, idx, line, for_store=False):
     """basic + advanced indexing.  Returns the selected sub-array (a view for basic indexing, a fresh array otherwise)."""
-    if not isinstance(idx, tuple) or (idx and idx[0] == 'slice'):
+    if not isinstance(idx, tuple) or (is_tag(idx, 'slice')):
         idx = (idx,)
     arr = need_rank(ex, state, arr, line)
     n_real = sum(1 for i in idx if not isinstance(i, SNone))
@@ -63,11 +64,15 @@ def getitem(ex, state, arr, idx, line, for_store=False):
             out.append(z3.IntVal(1))
             continue
         n = arr.shape[ax]
-        if isinstance(it, tuple) and it and it[0] == 'slice':
+        if is_tag(it, 'slice'):
             _, lo, hi, step = it
             if step is not None:
                 raise Unsupported('strided array slice at line %d' % line)
             a, ln = _clamp_slice(lo, hi, n)
+            if lo is None and hi is None:
+                a, ln = z3.IntVal(0), n
+            elif lo is None:
+                a = z3.IntVal(0)
             out.append(ln)
             axis_sel[ax] = ('slice', a, ln)
             if lo is not None or hi is not None:
@@ -102,7 +107,7 @@ def getitem(ex, state, arr, idx, line, for_store=False):
         positions = [p for p, _, _ in adv]
         adjacent = positions == list(range(positions[0], positions[0] + len(positions))) and all(
             not isinstance(o, tuple) or True for o in out)
-        rest = [o for o in out if not (isinstance(o, tuple) and o and o[0] == 'adv')]
+        rest = [o for o in out if not (is_tag(o, 'adv'))]
         # numpy: adjacent advanced indices -> broadcast dims replace them in place; separated -> broadcast dims first
         sep = False
         real_positions = [p for p in positions]
@@ -115,6 +120,8 @@ def getitem(ex, state, arr, idx, line, for_store=False):
         else:
             shape = [o for o in out[:positions[0]]] + list(bshape) + [o for o in out[positions[-1] + 1:]]
         res = new_arr(state, shape, arr.cplx, arr.kind)
+        if getattr(arr, 'descending_nonneg', False) and len(arr.shape) == 1 and len(adv) == 1 and getattr(axis_sel[adv[0][2]][1], 'is_prefix', False):
+            res.descending_nonneg = True
         # ghost flags: selecting a prefix of the columns (rows) of a matrix with orthonormal columns (rows)
         if len(arr.shape) == 2 and len(adv) == 1:
             sel_ax = adv[0][2]
@@ -131,6 +138,8 @@ def getitem(ex, state, arr, idx, line, for_store=False):
     shape = out
     contig = arr.contig if full_view else z3.BoolVal(False)
     res = SArr(shape, arr.cplx, arr.buf, contig, kind=arr.kind, own=False)
+    if getattr(arr, 'descending_nonneg', False) and len(shape) == 1:
+        res.descending_nonneg = True
     if getattr(arr, 'ubound', None) is not None:
         res.ubound = arr.ubound
         res.is_prefix = getattr(arr, 'is_prefix', False)
@@ -196,7 +205,13 @@ def elementwise(ex, state, operands, line):
     for o in operands:
         if isinstance(o, (SArr, SNum)):
             cx = z3.Or(cx, o.cplx)
-    return new_arr(state, shape, z3.simplify(cx))
+    res = new_arr(state, shape, z3.simplify(cx))
+    # scaling a descending non-negative vector by a positive scalar (s / s[0]) keeps the order
+    first = operands[0]
+    if isinstance(first, SArr) and getattr(first, 'descending_nonneg', False) and all(
+            (isinstance(o, SArr) and len(o.shape) == 0) or isinstance(o, SNum) or isinstance(o, int) for o in operands[1:]):
+        res.descending_nonneg = True
+    return res
 
 
 def conj(ex, state, a, line):
